@@ -17,7 +17,7 @@ struct Pr {
     }
     std::string ty(const Type* t, int depth = 0) {
         if (!t) return "null";
-        if (depth > 40) return "DEEP";
+        if (depth > 20000) return "DEEP";
         switch (t->kind()) {
             case TypeKind::Basic: {
                 auto b = t->asBasicType();
